@@ -48,11 +48,14 @@ func writeManifest(outputDir string, value Manifest) error {
 
 	payload = append(payload, '\n')
 
+	fsStep("manifest.write")
 	if err := os.WriteFile(tempPath, payload, 0o600); err != nil {
 		return fmt.Errorf("write manifest temp file: %w", err)
 	}
 
+	fsStep("manifest.rename")
 	if err := os.Rename(tempPath, finalPath); err != nil {
+		fsStep("manifest.remove-temp")
 		os.Remove(tempPath)
 		return fmt.Errorf("rename manifest: %w", err)
 	}
